@@ -305,8 +305,10 @@ func init() {
 			if len(rp) != len(pub) || len(rec.sig) != len(sig.bytes) {
 				continue
 			}
-			same := tb.And(in.bytesEq(Slice{A: rp}, Slice{A: pub}), in.bytesEq(Slice{A: rec.sig}, Slice{A: sig.bytes}))
-			in.addPC(tb.Implies(same, tb.Eq(v, in.hashEqIdeal(hash, rec.hash))))
+			// a signature made by key k over h0 verifies exactly under pub(k) for a digest equal to h0
+			sameSig := in.bytesEq(Slice{A: rec.sig}, Slice{A: sig.bytes})
+			samePub := in.bytesEq(Slice{A: rp}, Slice{A: pub})
+			in.addPC(tb.Implies(sameSig, tb.Eq(v, tb.And(samePub, in.hashEqIdeal(hash, rec.hash)))))
 		}
 		return v
 	})
